@@ -57,18 +57,18 @@ fn main() {
                 Err(_) => "err".to_string(),
             }
         }
-        "calc" => match core::run_calculator(&dec(f[2])) {
+        "calc" => match core::run_calculator(&dec(f[1])) {
             Ok(s) => format!("ok {}", q(&s)),
-            Err(_) => "err".to_string(),
+            Err(e) => format!("err {}", q(e)),
         },
-        "try" => match core::verif_hooks::try_run_calculator(&dec(f[2]), true) {
+        "try" => match core::verif_hooks::try_run_calculator(&dec(f[1]), true) {
             None => "none".to_string(),
             Some(cr) => {
                 if cr.status == 0 && cr.stderr.is_empty() {
                     format!("ok {}", q(&cr.stdout))
                 } else if cr.status == 1 && cr.stdout.is_empty() && !cr.stderr.is_empty() {
-                    // a diagnostic ("syntax error" today)
-                    "err".to_string()
+                    // a diagnostic
+                    format!("err {}", q(&cr.stderr))
                 } else {
                     format!("?cr status={} out={} err={}", cr.status, q(&cr.stdout), q(&cr.stderr))
                 }
